@@ -57,6 +57,9 @@ _add("C16", "Pfdl.Props.C16.verdict_iff_no_output", "Pfdl.Props.C16.total_after_
      "Pfdl.Check.access_typeable", "Pfdl.Check.checkExpr_total", "Pfdl.Props.C16.invalid_inert")
 _add("C19", "Pfdl.Props.C19.in_file", "Pfdl.Check.validate_lines", "Pfdl.Props.C19.within_statement", "Pfdl.Props.C19.call_fault_at_call",
      "Pfdl.Props.C19.unknown_task_at_call", "Pfdl.Props.C19.no_production_task_at_line_1")
+_add("C11", "Pfdl.Check.validate_nil_iff", "Pfdl.Check.checkTask_congr", "Pfdl.Check.exprTy_verdicts", "Pfdl.Props.C11.accepted_iff_good",
+     "Pfdl.Props.C11.verdict_order_independent", "Pfdl.Props.C11.checks_depend_on_lookups_only", "Pfdl.Props.C11.well_typed_condition_accepted",
+     "Pfdl.Props.C11.nesting_compositional")
 _add("C13", "Pfdl.Props.C13.table_complete", "Pfdl.Props.C13.applyOp_sem", "Pfdl.Props.C13.exec_eq_sem", "Pfdl.Props.C13.decision_eq_truth",
      "Pfdl.Props.C13.mul_div_above_add_sub", "Pfdl.Props.C13.add_sub_above_comparisons", "Pfdl.Props.C13.comparisons_above_and_above_or",
      "Pfdl.Props.C13.left_associative", "Pfdl.Props.C13.negation_rank", "Pfdl.Props.C13.k10_witness", "Pfdl.Props.C13.minus_plus_split_harmless")
